@@ -105,6 +105,39 @@ class Curve:
         zi = pow(Z, -1, self.p)
         return (X * zi * zi % self.p, Y * zi * zi * zi % self.p)
 
+    def lincomb(self, u, P, v, Q):
+        """u*P + v*Q by one joint ladder (Shamir's trick) - same result as add(mul(u, P), mul(v, Q)), fewer doublings.
+        Additive helper for the ECDSA reference; cross-checked against mul/add in selftest()."""
+        if self.n:
+            u %= self.n
+            v %= self.n
+        else:
+            if u < 0:
+                u, P = -u, self.neg(P)
+            if v < 0:
+                v, Q = -v, self.neg(Q)
+        if P is INF or u == 0:
+            return self.mul(v, Q)
+        if Q is INF or v == 0:
+            return self.mul(u, P)
+        PQ = self.add(P, Q)
+        R = (1, 1, 0)
+        for i in range(max(u.bit_length(), v.bit_length()) - 1, -1, -1):
+            R = self._jdbl(*R)
+            a, b = (u >> i) & 1, (v >> i) & 1
+            if a and b:
+                if PQ is not INF:
+                    R = self._jadd_affine(*R, *PQ)
+            elif a:
+                R = self._jadd_affine(*R, *P)
+            elif b:
+                R = self._jadd_affine(*R, *Q)
+        X, Y, Z = R
+        if Z == 0:
+            return INF
+        zi = pow(Z, -1, self.p)
+        return (X * zi * zi % self.p, Y * zi * zi * zi % self.p)
+
     # -- helpers -----------------------------------------------------------------------
     def sqrt(self, v):
         """square root mod p for p = 3 mod 4, or None."""
@@ -214,6 +247,11 @@ def selftest(rng=None, full=False):
                 assert c.mul_affine(k, P) == acc == c.mul(k, P), (c.name, k, P)
                 acc = c.add(acc, P)
             assert c.mul(-1, P) == c.neg(P)
+        for P in pts[1:2]:
+            for Q in pts[::9] + [P, c.neg(P)]:
+                for u in range(-1, c.n + 1):
+                    for v in (0, 1, c.n - 1, u, c.n - u):
+                        assert c.lincomb(u, P, v, Q) == c.add(c.mul_affine(u, P), c.mul_affine(v, Q)), (c.name, u, P, v, Q)
     for c in (SECP256K1, SECP256R1, BLS12_381_G1):
         assert c.on_curve(c.G)
         assert c.mul(c.n, c.G) is INF and c.mul_affine(c.n, c.G) is INF
@@ -225,6 +263,8 @@ def selftest(rng=None, full=False):
             assert P == c.mul_affine(k, c.G) and c.on_curve(P)
             assert c.add(P, c.mul(j, c.G)) == c.mul((k + j) % c.n, c.G)
             assert c.mul(j, P) == c.mul(j * k % c.n, c.G)
+            assert c.lincomb(j, c.G, k, P) == c.mul((j + k * k) % c.n, c.G)
+            assert c.lincomb(k, P, c.n - k, P) is INF and c.lincomb(j, P, 0, c.G) == c.mul(j, P)
             checked += 1
     # 2G on secp256k1 (published)
     assert SECP256K1.mul(2, SECP256K1.G)[0] == 0xC6047F9441ED7D6D3045406E95C07CD85C778E4B8CEF3CA7ABAC09B95C709EE5
